@@ -53,6 +53,10 @@ type ProbeImpl struct {
 func (p *ProbeImpl) Activate(a bus.Activation, h probe.ProbeSignalHelper) error {
 	p.Helper = h
 	p.Act = a
+	if p.Env != nil && p.Env.C.P("unset_level", 0) == 1 {
+		// a declared property that has no value until somebody writes it
+		return nil
+	}
 	return h.UpdateLevel(0)
 }
 
